@@ -32,8 +32,8 @@ def cases(rng, tier):
     for i in range(n):
         deref = rng.random() < 0.25
         tree = T.tree(rng, max_entries=rng.choice([3, 6, 12, 16]), max_len=30000, links=True, small_alphabet=(rng.random() < 0.2))
-        if deref and T.has_dir_link_cycle(tree):
-            deref = False
+        if deref and (T.has_dir_link_cycle(tree) or not T.deref_image_is_finite(tree)):
+            deref = False  # an upward or mutually recursive directory link has no finite dereferenced image
         out.append({"tree": tree, "entry": "shutil" if rng.random() < 0.15 and not deref else "writeall", "arcname": rng.choice([None, None, "arc", "deep/arc name"]),
                     "source": rng.choice(["abs", "rel"]), "deref": deref, "password": rng.choice([None, None, None, "pässwörd"]),
                     "uid": 65534 if i % 2 else 0, "chain": (G.chain(rng, aes=False) if rng.random() < 0.3 else None)})
